@@ -40,26 +40,27 @@ type LoopContract struct {
 }
 
 type FuncContract struct {
-	PkgPath  string
-	Name     string // "(*T).M", "T.M", "f", "f$1"
-	Requires []Clause
-	Ensures  []Clause
-	Modifies []Expr
-	ModAll   bool // modifies *
-	Ghostfns []GhostFn
-	Assumes  []Clause // definitional axioms (reported as assumptions)
-	Lets     []Macro
-	Loops    map[int]*LoopContract
-	Trusted  bool // do not verify body; contract assumed (reported)
-	Pure     bool // no heap effect; result is a function of args and read heaps
-	NoPanic  bool // obligation: panics unreachable (default true)
-	MayPanic bool
-	CheckAsserts bool
-	Lemmas   []Clause // assert-style lemmas proved at function entry under requires
-	Witness  []string
-	File     string
-	Line     int
-	Used     bool
+	PkgPath        string
+	Name           string // "(*T).M", "T.M", "f", "f$1"
+	Requires       []Clause
+	Ensures        []Clause
+	AssumedEnsures []Clause // postconditions callers may use but the body is not checked against (reported)
+	Modifies       []Expr
+	ModAll         bool // modifies *
+	Ghostfns       []GhostFn
+	Assumes        []Clause // definitional axioms (reported as assumptions)
+	Lets           []Macro
+	Loops          map[int]*LoopContract
+	Trusted        bool // do not verify body; contract assumed (reported)
+	Pure           bool // no heap effect; result is a function of args and read heaps
+	NoPanic        bool // obligation: panics unreachable (default true)
+	MayPanic       bool
+	CheckAsserts   bool
+	Lemmas         []Clause // assert-style lemmas proved at function entry under requires
+	Witness        []string
+	File           string
+	Line           int
+	Used           bool
 }
 
 type ExternDecl struct {
@@ -75,16 +76,38 @@ type ExternDecl struct {
 type ContractSet struct {
 	Funcs   map[string]*FuncContract // key pkgpath + "::" + name
 	Externs map[string]*ExternDecl
-	Macros  map[string]*Macro // package-level macros: key pkgpath::name and also global "::name"
+	Macros  map[string]*Macro   // package-level macros: key pkgpath::name and also global "::name"
+	SpecFns map[string]*GhostFn // package-level uninterpreted spec functions: key pkgpath::name
 	Files   []string
 }
 
 func NewContractSet() *ContractSet {
-	return &ContractSet{Funcs: map[string]*FuncContract{}, Externs: map[string]*ExternDecl{}, Macros: map[string]*Macro{}}
+	return &ContractSet{Funcs: map[string]*FuncContract{}, Externs: map[string]*ExternDecl{}, Macros: map[string]*Macro{}, SpecFns: map[string]*GhostFn{}}
 }
 
 var reMacroHead = regexp.MustCompile(`^([A-Za-z_][A-Za-z0-9_]*)\s*\(([^)]*)\)\s*=\s*(.*)$`)
 var reGhostFn = regexp.MustCompile(`^([A-Za-z_][A-Za-z0-9_]*)\s*\(([^)]*)\)\s*([A-Za-z_][A-Za-z0-9_.]*)$`)
+
+// parseParamsTyped allows Go-ish types containing brackets, e.g. "b []byte".
+func parseParamsTyped(s string) ([]QVar, error) {
+	s = strings.TrimSpace(s)
+	if s == "" {
+		return nil, nil
+	}
+	var out []QVar
+	for _, p := range splitTopLevel(s, ',') {
+		f := strings.Fields(p)
+		switch len(f) {
+		case 1:
+			out = append(out, QVar{f[0], "int"})
+		case 2:
+			out = append(out, QVar{f[0], f[1]})
+		default:
+			return nil, fmt.Errorf("bad parameter %q", p)
+		}
+	}
+	return out, nil
+}
 
 func parseParams(s string) ([]QVar, error) {
 	s = strings.TrimSpace(s)
@@ -178,6 +201,25 @@ func (cs *ContractSet) LoadContractFile(path, pkgPath string) error {
 			}
 			mc := &Macro{Name: m[1], Params: ps, Body: e, Src: rest}
 			cs.Macros[pkgPath+"::"+m[1]] = mc
+		case "specfn":
+			m := reGhostFn.FindStringSubmatch(rest)
+			if m == nil {
+				return fmt.Errorf("%s:%d: bad specfn", path, ln)
+			}
+			ps, err := parseParamsTyped(m[2])
+			if err != nil {
+				return fmt.Errorf("%s:%d: %v", path, ln, err)
+			}
+			cs.SpecFns[pkgPath+"::"+m[1]] = &GhostFn{m[1], ps, m[3]}
+		case "assumed-ensures":
+			if cur == nil {
+				return fmt.Errorf("%s:%d: assumed-ensures outside func", path, ln)
+			}
+			c, err := mkClause()
+			if err != nil {
+				return err
+			}
+			cur.AssumedEnsures = append(cur.AssumedEnsures, c)
 		case "requires", "ensures", "invariant", "assume", "lemma", "decreases":
 			c, err := mkClause()
 			if err != nil {
